@@ -11,6 +11,7 @@ import types
 from harness.common import canon, dec_res, enc_val, ensure_impl_on_path, known_predicate, run_impl
 
 GEN_MODULES = []
+EXTRA_TARGETS = ['Refuted/C11_assoc.vo']
 ASSUMPTIONS = []
 EXPLANATION = (
     "Model/Addr.v is hand-written (the address classes are namedtuple subclasses with "
@@ -141,6 +142,11 @@ def _assoc_null(case):
 @known_predicate('C11-sheet-bang')
 def _sheet_bang(case):
     return case.get('cls') == 'sheet-bang'
+
+
+@known_predicate('C11-enum-full-span')
+def _enum_full(case):
+    return case.get('cls') == 'enum-full-span'
 
 
 # ---------------------------------------------------------------------- run
@@ -422,6 +428,14 @@ def oracle(ctx, cells, rects, rects_big, triples):
                 if (AddressCell((c, r, c, r), sheet='S') in a) != ((c, r) in inside):
                     ctx.violation(dict(call='contains', args=[list(rc), c, r]),
                                   "containment disagrees with the enumeration")
+    # a bounded range that spans the whole sheet width is a range like any other
+    for rc in [(1, 5, MAX_COL, 5)]:
+        a = mk('S', rc)
+        ctx.count(('enum-full', rc), kind='oracle:enumerate')
+        got = run_impl(lambda: len({c for row in a.resolve_range for c in row}))
+        if got != ('ok', MAX_COL):
+            ctx.violation(dict(call='resolve_range', args=[list(rc)], cls='enum-full-span'),
+                          "a full-width (or full-height) bounded range is not enumerated", impl=got, expected=MAX_COL)
     # ---- 4. lattice laws
     def expected_inter(*rs):
         c1 = max(r[0] for r in rs); r1 = max(r[1] for r in rs)
